@@ -36,12 +36,10 @@ impl MechFunctionImpl for SetElementOfFxn {
       let elem_ptr: &Value = &*(self.elem.as_ptr());
       let set_ptr: &MechSet = &*(self.set.as_ptr());
 
-      // Only true if kinds are compatible and the set contains elem.
-      if set_ptr.kind == elem_ptr.kind() {
-        *out_ptr = set_ptr.set.contains(elem_ptr);
-      } else {
-        *out_ptr = false;
-      }
+      // The set's kind is only the kind of the element that was inserted first (a set of sets
+      // may hold sets of different cardinality), so it cannot decide membership: a value of
+      // another kind simply equals none of the elements.
+      *out_ptr = set_ptr.set.contains(elem_ptr);
     }
   }
   fn out(&self) -> Value { Value::Bool(self.out.clone()) }
